@@ -32,6 +32,7 @@
 EXTENDS Machine, Json, TLCExt, SequencesExt
 CONSTANTS Kinds,        \* parameter kinds enumerated for the first parameter
           Kinds2,       \* ... and for the second parameter ({} = one-parameter programs only)
+          MaxForm2,     \* the second parameter uses the first MaxForm2 argument forms of its kind only
           Fuel
 
 I32T == [k |-> "prim", t |-> "i32"]
@@ -142,7 +143,7 @@ VARIABLES c1, c2, prog, res, done
 vars == <<c1, c2, prog, res, done>>
 Init == c1 = None /\ c2 = None /\ prog = <<>> /\ res = [status |-> "none"] /\ done = FALSE
 Pick == /\ c1 = None
-        /\ \E a \in {c \in Choice(Kinds) : Valid(c)}, b \in {c \in Choice(Kinds2) : Valid(c)} \cup {None} :
+        /\ \E a \in {c \in Choice(Kinds) : Valid(c)}, b \in {c \in Choice(Kinds2) : Valid(c) /\ c.a <= MaxForm2} \cup {None} :
               /\ Sensible(a, b)
               /\ c1' = a /\ c2' = b
               /\ prog' = Prog(a, b)
